@@ -1,3 +1,3 @@
 SPECIFICATION Spec
-INVARIANTS DriverClaimPipe PipeInv ScalarInv CmtInv BigPipeInv
+INVARIANTS DriverClaimPipe PipeInv ScalarInv CmtInv BigPipeInv BigLineInv
 CHECK_DEADLOCK FALSE
